@@ -74,6 +74,11 @@ func RunPckExtCase(cs map[string]any, id int, seed int64) Result {
 	}
 	alt.PCESvn = (v.PCESvn + 1 + int64(rng.Intn(60000))) % 65536
 
+	if dev == "class" && cls == "derLike" {
+		// a right-sized value whose bytes read as the complete DER of a shorter octet string (04 <len-2> ...): it is the value, as it stands
+		val := map[string][]byte{"ppid": v.PPID, "pceid": v.PCEID, "fmspc": v.FMSPC, "cpusvn": v.CPUSvn}[target]
+		val[0], val[1] = 0x04, byte(len(val)-2)
+	}
 	// "unknown OID": any last arc outside the defined ones, including the boundary arcs 0, 19, 127/128 and large ones
 	oddArcs := []int{0, 19, 20, 127, 128, 255, 256, 16383, 16384, 1 << 30}
 	unknownElem := func() []byte {
@@ -97,6 +102,8 @@ func RunPckExtCase(cs map[string]any, id int, seed int64) Result {
 					return gen.ElemOctet(octetOID[k], val[:len(val)-1])
 				}
 				return gen.ElemOctet(octetOID[k], append(cp(val), 0x5a))
+			case "derLike":
+				return gen.ElemOctet(octetOID[k], val)
 			case "badType":
 				return gen.Seq(gen.OID(octetOID[k]...), gen.Int(int64(val[0])))
 			case "nested":
@@ -111,6 +118,8 @@ func RunPckExtCase(cs map[string]any, id int, seed int64) Result {
 					return gen.ElemOctet(gen.TcbCompOID(18), v.CPUSvn[:15])
 				}
 				return gen.ElemOctet(gen.TcbCompOID(18), append(cp(v.CPUSvn), 1))
+			case "derLike":
+				return gen.ElemOctet(gen.TcbCompOID(18), v.CPUSvn)
 			case "badType":
 				return gen.ElemInt(gen.TcbCompOID(18), 7)
 			case "trailing":
